@@ -412,13 +412,13 @@ func sortedOpIDs[V any](m map[int64]V) []int64 {
 // judgeC11 evaluates the C11 oracle over the totally ordered history.
 func judgeC11(p *CPlan, evs []core.Ev, res *core.Result, sc *core.Sched) {
 	type opInfo struct {
-		k            int
-		off          uint32
-		typ          uint16
-		call, ret    int
-		err          bool
-		known        bool
-		reentrant    bool
+		k         int
+		off       uint32
+		typ       uint16
+		call, ret int
+		err       bool
+		known     bool
+		reentrant bool
 	}
 	ops := map[int64]*opInfo{}
 	for ti, t := range p.Tasks {
